@@ -233,6 +233,19 @@ def r4(ctx):
     ps = [(s, v) for s, v in util.assignments_to(fi.node, "scores") if isinstance(v, tuple)]
     ok = ok and any(u(v[1]) == "l[0]" for s, v in ps)
     ctx.ob(fi.qual, "phase-set-with-best-score-wins", ok, fi.loc(lsorts[0]) if lsorts else fi.loc(), "the phase set whose best haplotype score is highest is used" if ok else "phase set choice is not index 0 of a descending sort")
+    # distance tests against the linked-read cutoff are symmetric
+    n_dist = 0
+    for f_ in (fi, ctx.func(MOD + ".attempt_add_phase_information")):
+        for cmp_ in [x for x in walk_function(f_.node) if isinstance(x, ast.Compare) and len(x.ops) == 1]:
+            sides = [cmp_.left, cmp_.comparators[0]]
+            if not any(isinstance(s_, ast.Name) and s_.id == "linked_read_cutoff" for s_ in sides):
+                continue
+            n_dist += 1
+            other = [s_ for s_ in sides if not (isinstance(s_, ast.Name) and s_.id == "linked_read_cutoff")][0]
+            ok = isinstance(other, ast.Call) and u(other.func) == "abs" and isinstance(other.args[0], ast.BinOp) and isinstance(other.args[0].op, ast.Sub) and "reference_start" in u(other.args[0].left) and "reference_start" in u(other.args[0].right)
+            okdir = (isinstance(cmp_.ops[0], (ast.LtE, ast.Lt)) and other is cmp_.left) or (isinstance(cmp_.ops[0], (ast.GtE, ast.Gt)) and other is cmp_.comparators[0])
+            ctx.ob(f_.qual, "linked-read-distance-is-absolute:%s" % u(cmp_)[:50], ok and okdir, f_.loc(cmp_), "reads are pooled only if |start difference| <= cutoff" if ok and okdir else "`%s` is not a symmetric distance test: reads downstream (or upstream) of the seed are pooled regardless of the cutoff" % u(cmp_))
+    ctx.require(n_dist >= 2, "distance tests against linked_read_cutoff not found")
     # stored tuple layout == unpack layout == tags written
     h = ctx.func(MOD + ".attempt_add_phase_information")
     stored = [u(e) for e in st.value.elts] if isinstance(st.value, ast.Tuple) else []
@@ -274,4 +287,4 @@ RULES = [
     ("C10.R3", "stale tags: HP/PS/PC defined on every path to the write", r3),
     ("C10.R4", "tie and empty rejection; tuple layouts; tag values", r4),
 ]
-FLOORS = {"C10.R1": 9, "C10.R2": 6, "C10.R3": 10, "C10.R4": 13}
+FLOORS = {"C10.R1": 9, "C10.R2": 6, "C10.R3": 10, "C10.R4": 15}
